@@ -53,6 +53,23 @@ CLAIMED["C18"] = dict(
         "carry 0-3 piggy-backed frames, and the server may close or reset after any byte. Oracle: the request parses (independent HTTP parser) with all mandated headers, a fresh 16-byte key and the caller's headers; success iff the independent evaluator of the three conditions says so; "
         "on failure State() is terminated, every read/write API refuses and nothing reaches the wire; after success the piggy-backed messages then later ones are delivered exactly; 1-3 handshakes per Stream with checks that nothing of an earlier session is read or written.",
    note="Descriptor release after a failed handshake is judged by C13's census, not here. A reset during the response makes either outcome legitimate.")
+CLAIMED["C06"] = dict(
+   technique="deterministic simulation: generated conforming sessions under seeded fragmentation and segmentation, four read APIs, two transports",
+   text="A simulated server (independent RFC 6455 encoder) sends message sequences with sizes spanning the 7/16/64-bit encodings up to the per-run maximum, fragmented at tape-chosen points with ping/pong between fragments; "
+        "the byte stream is cut at tape-chosen offsets (directed: one or two cuts walking through every offset of short sessions), also together with the handshake response, and further segmented by the stub kernel. "
+        "Transports: production stack (real Handshake, stub net.Conn, AsyncAdapter, stub TCP) and a scripted in-memory sonic.Stream with partial/deferred completions. Oracle: the delivered (type, length, payload) sequence equals the sent one for NextMessage, AsyncNextMessage, NextFrame and AsyncNextFrame (frames reassembled by the harness); control frames surface in order; PayloadLength equals len(Payload).",
+   note="Equality with the sent sequence under every API implies the differential clause. Sizes above 256 KiB are not generated.")
+CLAIMED["C07"] = dict(
+   technique="deterministic simulation of the read path (CodecConn over a scripted transport) with in-transit corruption, differential against a reference decoder; plus exhaustive enumeration of the encoder/decoder product",
+   text="Conforming frame streams are corrupted in transit (bit flips, rewritten length fields incl. 64-bit lengths with the top bit set and max+1, truncation, inserted garbage, pure random prefixes) and delivered under two tape-chosen segmentations (incl. byte-by-byte); "
+        "an independent reference decoder applied to the post-fault bytes says frame / need-more / too-big for each position and sonic must agree on boundaries and contents, reject over-max declared lengths without buffering for them (source buffer capacity bounded), give the same outcomes under both segmentations and never panic. "
+        "Directed run: all 5120 combinations FIN x RSV x opcode x mask x 10 length classes through Encode then Decode must be the identity (exhaustive enumeration, not simulation).",
+   note="The decoder does not judge RFC conformance of opcodes/RSV (that is the stream layer, C15). After the first error outcome the run stops (decoder state after an error is unspecified).")
+CLAIMED["C15"] = dict(
+   technique="deterministic simulation: single-violation mutation of generated sessions, seeded position/segmentation, four read APIs, two transports",
+   text="C06's generator plus exactly one mutation (RSV bit, reserved data/control opcode, masked frame, FIN-less control, control payload 126+, continuation with nothing to continue, data frame inside a fragmented message, frame over the maximum, message over the maximum) at a tape-chosen frame. "
+        "Oracle: messages before it are delivered unchanged, the read that meets it reports an error, nothing of it is delivered as data, no panic; after a framing violation Write/AsyncWrite/WriteFrame are refused and the next flush puts a Close with status 1002 (checked with the independent parser, no data frame after it) on the wire.",
+   note="Frames after the violating one are not judged (the statement does not). Fragmentation-rule violations are generated only for the message-level APIs.")
 
 NOT_YET = {
 }
